@@ -724,6 +724,8 @@ func main() {
 	cases = append(cases, corpus...)
 	exh := exhaustiveCases()
 	cases = append(cases, exh...)
+	col := collisionCases()
+	cases = append(cases, col...)
 	nRandom, nOdd, nChain, nRev, nHist := 6000, 600, 2000, 1500, 1500
 	if f.Thorough() {
 		nRandom, nOdd, nChain, nRev, nHist = 150000, 8000, 40000, 30000, 30000
@@ -934,6 +936,7 @@ func main() {
 	res.Rule = "distinct schema sets (by content) in which at least one leaf resolves through a typedef (resolved name differs from the base kind) or is rejected with a binding error (unknown type, unknown prefix, cycle); every case = load all files, Process() twice (history cases: then load further files - other revisions of an imported module - into the same Modules and Process() twice again; the model answers for all texts together, i.e. for a fresh load), dump Entry.Type / DefaultValues / Errors of every leaf entry (Dir, rpc input/output, augments) and Type.YangType of every AST leaf, compared with the model's per-statement answer and with the specification's binding + inheritance"
 	res.Distribution["corpus_cases"] = len(corpus)
 	res.Distribution["exhaustive_binding_cases"] = len(exh)
+	res.Distribution["exhaustive_prefix_vs_module_name_cases"] = len(col)
 	res.Distribution["random_cases"] = nRandom / shards * shards
 	res.Distribution["odd_cases"] = nOdd / shards * shards
 	res.Distribution["chain_depth5_cases"] = nChain / shards * shards
